@@ -217,6 +217,20 @@ func vRaceMode() bool { return os.Getenv("VERIF_RACE") != "" }
 // ---- C16 events: natively these are schedule points (see zz_verif sched) ----
 var vEventHook func(name string)
 
+// vStall: the calling thread blocks for good (a client that stops sending in
+// the middle of a message). Natively the goroutine really blocks; the replay
+// driver is told first so that it counts the thread as having nothing more to
+// do. Symbolically (event mode) the thread's path ends here.
+var vOnStall func()
+
+func vStall() {
+	vMark("stalled") // the schedule step that corresponds to the symbolic mark
+	if vOnStall != nil {
+		vOnStall()
+	}
+	select {}
+}
+
 func vEventBegin(srv any) {}
 func vEventEnd()          {}
 func vMark(name string) {
